@@ -532,11 +532,14 @@ class ESME:
                         )
                     if isinstance(smpp_message, SubmitSm):
                         await self.hook.send_error(smpp_message, err, self.client_id)
-                    # ValueError, LookupError (unknown codec or encoding name), TypeError (a codec that
-                    # does not turn text into bytes) and struct.error indicate a problem with building
-                    # the PDU, which is likely the result of invalid parameters passed by user
-                    # application. Otherwise, it is a transport error and we must stop.
-                    if not isinstance(err, (ValueError, LookupError, TypeError, StructError)):
+                    # ValueError, LookupError (unknown codec or encoding name), TypeError and
+                    # AssertionError (a codec that does not turn text into bytes) and struct.error
+                    # indicate a problem with building the PDU, which is likely the result of invalid
+                    # parameters passed by user application. Otherwise, it is a transport error and
+                    # we must stop.
+                    if not isinstance(
+                        err, (ValueError, LookupError, TypeError, AssertionError, StructError)
+                    ):
                         raise
 
                 if self.testing:
